@@ -519,7 +519,7 @@ static void hist_case(Case& cs, const Profile& pf) {
         CDNS::BlockParameters lb = adapt::lib_bp(b);
         CDNS::index_t idx = ex->add_block_parameters(lb);
         trace << "add_block_parameters -> " << idx << "\n";
-        if (idx != ref.sets.size()) cx.fail(O_C12, "c12.add_bp_index", "add_block_parameters returned " + std::to_string(idx) + " expected " + std::to_string(ref.sets.size()));
+        if (idx != ref.sets.size()) cx.fail(O_C12 | O_C04 | O_C09 | O_C13, "c12.add_bp_index", "add_block_parameters returned " + std::to_string(idx) + " expected " + std::to_string(ref.sets.size()));
         ref.sets.push_back(b);
         break;
       }
@@ -766,7 +766,7 @@ static Profile P_C01() { Profile p; p.name = "c01"; p.oracles = O_C01; p.w_setac
 static Profile P_C01BIG() { Profile p = P_C01(); p.name = "c01big"; p.big_strings = true; p.ops_per_size = 3; return p; }
 static Profile P_C01HUGE() { Profile p = P_C01(); p.name = "c01huge"; p.big_strings = true; p.ops_per_size = 12; p.w_qr = 20; p.w_write = 1; p.pres_fixed = 6; return p; }
 static Profile P_C02() { Profile p; p.name = "c02"; p.oracles = O_C02; p.w_ext = 3; p.w_rotate = 2; p.w_addbp = 1; p.w_setactive = 2; return p; }
-static Profile P_C04() { Profile p; p.name = "c04"; p.oracles = O_C04; p.pres_fixed = 7; p.w_write = 1; p.w_ext = 2; p.ext_generic_only = true; p.max_sets = 3; p.w_setactive = 2; p.any_tps = false; p.empty_structs = false; return p; }
+static Profile P_C04() { Profile p; p.name = "c04"; p.oracles = O_C04; p.pres_fixed = 7; p.w_write = 1; p.w_ext = 2; p.w_addbp = 1; p.w_rotate = 1; p.ext_generic_only = true; p.max_sets = 3; p.w_setactive = 2; p.any_tps = false; p.empty_structs = false; return p; }
 static Profile P_C10() { Profile p = P_C02(); p.name = "c10"; p.oracles = O_C10; p.big_strings = true; return p; }
 static Profile P_C11() { Profile p; p.name = "c11"; p.oracles = O_C11; p.small_blocks = true; p.hint_modes = false; p.w_write = 1; p.ops_per_size = 2; return p; }
 static Profile P_C12() { Profile p; p.name = "c12"; p.oracles = O_C12; p.w_ext = 1; p.small_blocks = true; p.min_sets = 2; p.w_setactive = 3; p.w_counters = 2; p.w_aec = 6; p.w_mm = 5; p.w_write = 2; p.ops_per_size = 2; p.any_tps = false; return p; }
